@@ -17,12 +17,12 @@ theorem drop_getElem? {α : Type} {xs ys : List α} {y : α} {i : Nat} (h : xs.d
     simpa [List.tail_drop] using this
 
 /-- compileArray, the elements after the first: the cursor is back on the array before each -/
-theorem arrRest_ok {t : GoType} {fpv addr : Bool} {P : Program} {sp : Nat} {pv : Bool} (size : Nat)
-    (r : Regs) (s : Stack) (xs : List GoVal) (hr : r.p.get = some (.arr xs)) (hroom : (r :: s).length + need t ≤ maxStack) :
+theorem arrRest_ok {t : GoType} {fpv addr : Bool} {P : Program} {sp : Nat} {pv : Bool} (size : Nat) {lv : Nat} {tab : List GoType} (hlv : libLeft tab ≤ lv)
+    (r : Regs) (s : Stack) (xs : List GoVal) (hr : r.p.get = some (.arr xs)) (hroom : ∀ y ∈ xs, (r :: s).length + needV t y ≤ maxStack) :
     ∀ (k i pc : Nat) (b : Bytes) (ys : List GoVal), xs.drop i = ys → ys.length = k → (∀ y ∈ ys, CodeOK o co t y) →
-      At P pc (arrRest (fun pc' => code co pc' sp pv t) size k i pc) →
+      At P pc (arrRest (fun pc' => code co (libK co lv) tab pc' sp pv t) size k i pc) →
       (∀ js, encL o addr t ys = .ok js → ∀ res,
-          Halts o co fpv P (pc + (arrRest (fun pc' => code co pc' sp pv t) size k i pc).length) r (r :: s) (b ++ tailElems js) res →
+          Halts o co fpv P (pc + (arrRest (fun pc' => code co (libK co lv) tab pc' sp pv t) size k i pc).length) r (r :: s) (b ++ tailElems js) res →
           Halts o co fpv P pc r (r :: s) b res) ∧
       (∀ e, encL o addr t ys = .error e → e = .unsupportedValue ∧ Halts o co fpv P pc r (r :: s) b (.error (.enc e))) := by
   intro k
@@ -44,12 +44,12 @@ theorem arrRest_ok {t : GoType} {fpv addr : Bool} {P : Program} {sp : Nat} {pv :
     | cons y ys =>
       obtain ⟨hget, hdrop'⟩ := drop_getElem? hdrop
       rw [arrRest] at hat ⊢
-      generalize hc : code co (pc + 2) sp pv t = c at hat ⊢
+      generalize hc : code co (libK co lv) tab (pc + 2) sp pv t = c at hat ⊢
       have hA : At P pc [Instr.byte 44, Instr.index i (i * size)] := hat.left.left.left
       have hC : At P (pc + 2) c := At.right' hat.left.left (by simp)
       have hL : At P (pc + 2 + c.length) [Instr.load] := At.right' hat.left (by simp <;> omega)
       have hR := At.right' (q := pc + 2 + c.length + 1) hat (by simp <;> omega)
-      obtain ⟨hyok, hyerr⟩ := hall y (by simp) addr fpv P (pc + 2) sp pv { r with p := .val y } (r :: s) (b ++ [44]) (hc ▸ hC) rfl hroom
+      obtain ⟨hyok, hyerr⟩ := hall y (by simp) lv tab hlv addr fpv P (pc + 2) sp pv { r with p := .val y } (r :: s) (b ++ [44]) (hc ▸ hC) rfl (hroom y (List.mem_of_getElem? hget))
       rw [hc] at hyok
       have hidx : step o (Instr.index i (i * size)) (pc + 1) r (r :: s) (b ++ [44]) =
           .next (pc + 1 + 1) { r with p := .val y } (r :: s) (b ++ [44]) := by
@@ -101,10 +101,12 @@ theorem arrRest_ok {t : GoType} {fpv addr : Bool} {P : Program} {sp : Nat} {pv :
 
 
 theorem codeOK_arr {t : GoType} (n : Nat) (xs : List GoVal) (hn : xs.length = n) (hall : ∀ x ∈ xs, CodeOK o co t x) :
-    CodeOK o co (.arr n t) (.arr xs) := by
-  intro addr fpv P pc sp pv r s b hat hg hs
-  rw [code] at hat ⊢
-  simp only [need] at hs
+    CodeOKn o co (.arr n t) (.arr xs) := by
+  intro lv tab hlv hnh addr fpv P pc sp pv r s b hat hg hs
+  rw [code, if_neg (by simp [hnh])] at hat ⊢
+  simp only [needV] at hs
+  have hlv' : libLeft (.arr n t :: tab) ≤ lv := Nat.le_trans (libLeft_cons_le _ _) hlv
+  have hnl : ∀ y ∈ xs, needV t y ≤ needL t xs := needL_mem xs
   have hsave : ∀ q bb e, step o (.save e) q r s bb =
       .next (q + 1) (if e then { r with p := .elems xs } else r) (r :: s) bb := by
     intro q bb e
@@ -133,15 +135,15 @@ theorem codeOK_arr {t : GoType} (n : Nat) (xs : List GoVal) (hn : xs.length = n)
     have hne : (xs.length + 1 == 0) = false := by simp
     have hne' : (xs.length + 1 != 0) = true := by simp
     simp only [hne, hne', Bool.false_eq_true, if_false, Nat.add_sub_cancel] at hat ⊢
-    generalize hc : code co (pc + 2) (sp + 1) pv t = c at hat ⊢
+    generalize hc : code co (libK co lv) (.arr (xs.length + 1) t :: tab) (pc + 2) (sp + 1) pv t = c at hat ⊢
     have hA : At P pc [Instr.byte 91, Instr.save true] := hat.left.left.left
     have hC : At P (pc + 2) c := (At.right' hat.left.left (by simp)).left
     have hL : At P (pc + 2 + c.length) [Instr.load] := (At.right' hat.left.left (by simp)).right
     have hR := At.right' (q := pc + 2 + (c ++ [Instr.load]).length) hat.left (by simp <;> omega)
-    have hE : At P (pc + 2 + (c ++ [Instr.load]).length + (arrRest (fun pc' => code co pc' (sp + 1) pv t) (tsize t) xs.length 1
+    have hE : At P (pc + 2 + (c ++ [Instr.load]).length + (arrRest (fun pc' => code co (libK co lv) (.arr (xs.length + 1) t :: tab) pc' (sp + 1) pv t) (tsize t) xs.length 1
         (pc + 2 + (c ++ [Instr.load]).length)).length) [Instr.drop, Instr.byte 93] := At.right' hat (by simp <;> omega)
-    obtain ⟨hxok, hxerr⟩ := hall x (by simp) addr fpv P (pc + 2) (sp + 1) pv { r with p := .elems (x :: xs) } (r :: s) (b ++ [91])
-      (hc ▸ hC) rfl (by simp; omega)
+    obtain ⟨hxok, hxerr⟩ := hall x (by simp) lv _ hlv' addr fpv P (pc + 2) (sp + 1) pv { r with p := .elems (x :: xs) } (r :: s) (b ++ [91])
+      (hc ▸ hC) rfl (by have := hnl x (by simp); simp; omega)
     rw [hc] at hxok
     have hload : ∀ bb, step o Instr.load (pc + 2 + c.length) { r with p := .elems (x :: xs) } (r :: s) bb =
         .next (pc + 2 + c.length + 1) r (r :: s) bb := by
@@ -165,8 +167,8 @@ theorem codeOK_arr {t : GoType} (n : Nat) (xs : List GoVal) (hn : xs.length = n)
             refine halts_step (hA.get 1 (by omega) rfl) (hsave _ _ _) ?_
             refine halts_cast (hxok jx hjx res ?_) (by omega) (by simp) rfl rfl
             refine halts_step (hL.get 0 (by omega) rfl) (hload _) ?_
-            refine halts_cast ((arrRest_ok (o := o) (co := co) (fpv := fpv) (addr := addr) (P := P) (sp := sp + 1) (pv := pv) (tsize t) r s (x :: xs) hg
-              (by simp; omega) xs.length 1 (pc + 2 + (c ++ [Instr.load]).length) (b ++ [91] ++ render jx) xs rfl rfl
+            refine halts_cast ((arrRest_ok (o := o) (co := co) (fpv := fpv) (addr := addr) (P := P) (sp := sp + 1) (pv := pv) (tsize t) hlv' r s (x :: xs) hg
+              (fun y hy => by have := hnl y hy; simp; omega) xs.length 1 (pc + 2 + (c ++ [Instr.load]).length) (b ++ [91] ++ render jx) xs rfl rfl
               (fun z hz => hall z (by simp [hz])) hR).1 jr hjr res ?_) (by simp <;> omega) rfl rfl rfl
             refine halts_step (hE.get 0 (by omega) rfl) (by simp only [step]; rfl) ?_
             refine halts_step (hE.get 1 (by omega) rfl) (by simp only [step]; rfl) ?_
@@ -188,8 +190,8 @@ theorem codeOK_arr {t : GoType} (n : Nat) (xs : List GoVal) (hn : xs.length = n)
           split at hjs
           · rename_i e'' hjr
             injection hjs with hjs; subst hjs
-            obtain ⟨h1, h2⟩ := (arrRest_ok (o := o) (co := co) (fpv := fpv) (addr := addr) (P := P) (sp := sp + 1) (pv := pv) (tsize t) r s (x :: xs) hg
-              (by simp; omega) xs.length 1 (pc + 2 + (c ++ [Instr.load]).length) (b ++ [91] ++ render jx) xs rfl rfl
+            obtain ⟨h1, h2⟩ := (arrRest_ok (o := o) (co := co) (fpv := fpv) (addr := addr) (P := P) (sp := sp + 1) (pv := pv) (tsize t) hlv' r s (x :: xs) hg
+              (fun y hy => by have := hnl y hy; simp; omega) xs.length 1 (pc + 2 + (c ++ [Instr.load]).length) (b ++ [91] ++ render jx) xs rfl rfl
               (fun z hz => hall z (by simp [hz])) hR).2 _ hjr
             refine ⟨h1, ?_⟩
             refine halts_step (hA.get 0 (by omega) rfl) (by simp only [step]; rfl) ?_
